@@ -527,6 +527,28 @@ fn index_width_cases(coin: &'static Coin, only: Option<usize>) -> Vec<(String, C
         cb.push(vec![t1, t2, t3]);
         v.push(("spends whose first input finds nothing to remove (no address / unknown / null outpoint), later inputs naming the same transaction".to_string(), cb));
     }
+    // a long range: 2200 blocks, an address-bearing output created at EVERY height (and still unspent at the end), every seventh
+    // block spending the coinbase of three blocks before - whatever an implementation does "every N blocks" (ageing, flushing,
+    // compacting its table) happens several times, and every height is somebody's boundary
+    if !want(&v) {
+        skip(&mut v);
+    } else {
+        use refmodel::chain::coinbase;
+        let mut cb = ChainBuilder::with_genesis(coin);
+        let mut ids: Vec<[u8; 32]> = vec![[0u8; 32]];
+        for h in 1..2200u64 {
+            let mut a = [0x77u8; 20];
+            a[..8].copy_from_slice(&h.to_le_bytes());
+            let c = coinbase(h, 51, vec![TxOut { value: 1000 + h, script: script::p2pkh(&a) }, TxOut { value: 5, script: script::p2pkh(&script::h20((h % 200) as u8)) }]);
+            ids.push(c.txid());
+            let mut txs = vec![c];
+            if h % 7 == 0 && h > 3 {
+                txs.push(Tx { version: 1, segwit: false, inputs: vec![TxIn::spend(ids[(h - 3) as usize], 1)], outputs: vec![TxOut { value: 4, script: script::p2pkh(&script::h20(201)) }], locktime: 0, wide: 0 });
+            }
+            cb.push_raw(txs);
+        }
+        v.push(("2200 blocks, an unspent address-bearing output created at every height".to_string(), cb));
+    }
     // a big UTXO set: 250 000 unspent outputs over 40 addresses (5 transactions of 50 000 outputs), 10 000 of them spent again
     if !want(&v) {
         skip(&mut v);
